@@ -2,7 +2,7 @@
 a == 0 meaning transparent; and parser for the colour strings that appear in SVG output."""
 import re
 
-NAMED = {'black': (0, 0, 0), 'white': (255, 255, 255), 'red': (255, 0, 0), 'darkblue': (0, 0, 139), 'tan': (210, 180, 140),
+NAMED = {'aliceblue': (240, 248, 255), 'antiquewhite': (250, 235, 215), 'black': (0, 0, 0), 'white': (255, 255, 255), 'red': (255, 0, 0), 'darkblue': (0, 0, 139), 'tan': (210, 180, 140),
          'gray': (128, 128, 128), 'grey': (128, 128, 128), 'green': (0, 128, 0), 'blue': (0, 0, 255), 'yellow': (255, 255, 0),
          'orange': (255, 165, 0), 'navy': (0, 0, 128), 'lime': (0, 255, 0), 'silver': (192, 192, 192), 'maroon': (128, 0, 0),
          'purple': (128, 0, 128), 'teal': (0, 128, 128), 'olive': (128, 128, 0), 'aqua': (0, 255, 255), 'fuchsia': (255, 0, 255)}
@@ -16,6 +16,9 @@ def rgba(c):
         a = 255
         if len(c) == 4:
             a = c[3] * 255 if isinstance(c[3], float) else c[3]
+        if any(isinstance(x, float) for x in c[:3]):
+            # EPS/PDF: float components are fractions 0.0..1.0 (each component on its own)
+            return tuple(x * 255 if isinstance(x, float) else x for x in c[:3]) + (a,)
         return (c[0], c[1], c[2], a)
     if c.lower() in NAMED:
         return NAMED[c.lower()] + (255,)
